@@ -1,7 +1,7 @@
 (* C09 - proofs about the QueryEscape / QueryUnescape models, the WHATWG query encoding and
    the quote trimming. *)
 From Coq Require Import List Ascii String NArith Bool Lia.
-From ZenoV Require Import Lib.Hex Url.Escape.
+From ZenoV Require Import Lib.Hex Url.Escape Url.Lit.
 Import ListNotations.
 Open Scope char_scope.
 
@@ -293,3 +293,7 @@ Proof.
   induction l as [|c l IH]; [reflexivity|]. unfold enc_free in *. cbn [forallb]. intro H.
   apply andb_true_iff in H as [Hc Hl]. rewrite (esc_safe_enc_free_byte c Hc), (IH Hl). reflexivity.
 Qed.
+
+(* the compact literals of the harness-written case files denote the same bytes as [hx] *)
+Example bx_hx : bx "http://a.b/?q=""1""" = hx "687474703a2f2f612e622f3f713d223122".
+Proof. vm_compute. reflexivity. Qed.
